@@ -76,6 +76,14 @@ Theorem C01_absolute_ignores_chord : forall c a b d n, elem_ok c -> pkind n = KA
   to_pitch_abs (shift_chord c a b d) n = to_pitch_abs c n.
 Proof. exact to_pitch_absolute_invariant. Qed.
 
+(* the library's named absolute notes (C1 .. B8 with their sharp / flat spellings; table regenerated from library.py): each sounds the
+   pitch its name says, middle C = C5 = 0, one octave number = 12 *)
+Theorem C01_named_absolute_notes :
+  forallb (fun e => let '(_, pc, number, val, oct) := e in (val + 12 * oct =? pc + 12 * (number - 5))) LIB_ABSOLUTE_NOTES = true /\
+  (96 <= length LIB_ABSOLUTE_NOTES)%nat.
+Proof. split; [vm_compute; reflexivity|vm_compute; repeat constructor]. Qed.
+
+
 (* pitch 0 is middle C: s0 on I of C major *)
 Theorem C01_middle_C :
   to_pitch_abs (mkC 0 (bare "") (mkT 0 MMaj 0) 0) (plain KS 0 0) = Some (Some 0).
